@@ -886,7 +886,8 @@ def run(ck):
             rp["live"] = live
         ok = any(same_outcome(impl, r) for r in refs)
         if not ok:
-            coded, _ = w.reference(frames, x, src, dst, "as-coded")
+            # the F5 reading is only consulted while the F5 witness itself still reproduces
+            coded = w.reference(frames, x, src, dst, "as-coded")[0] if q_oldest else []
             if any(same_outcome(impl, r) for r in coded):
                 ck.violation(F5_KEY, "a context enabled without a value for a parameter inherits it from the context owning "
                              "the first rule of the OLDEST active context, not from the innermost enclosing one", rp)
@@ -1207,7 +1208,7 @@ def run(ck):
             scenario(w, cases_w, frames, pick_forms(rng, frames), x, src, dst, "random",
                      api=rng.choice(["to", "to", "to", "ito", "m_as"]), observe=rng.random() < 0.25, compat=rng.random() < 0.2)
             stats["random scenarios"] += 1
-            if depth >= 2 and rng.random() < 0.35:
+            if depth >= 2 and rng.random() < 0.25:
                 scenario_live(w, cases_w, frames, pick_forms(rng, frames), x, src, dst, "random")
         groups.append((w, cases_w))
     ck.count("worlds", len(groups))
